@@ -66,6 +66,9 @@ def run(ctx, rep):
     rep.rule("R5.8", "the recorded violation belongs to the recorded point: user code gets a private copy of the point (see C06 R6.4)")
     from . import c06
     c06.r64(ctx, Renamed(rep, to="R5.8"), rule="R5.8")
+    rep.rule("R5.9", "the recorded objective values are Python floats, not views of the user's output buffer (see C11 R11.6)")
+    from . import c11
+    c11.r116(ctx, Renamed(rep, to="R5.9"), rule="R5.9")
     c19.r199(ctx, rep, ctx.func(T.MINIMIZE), c19.enum_tables(ctx), rule="R5.7")
 
 
